@@ -8,14 +8,21 @@ import "log"
 
 // vhAutoM is one exported method (or package-level function) with a closure
 // that calls it with arbitrary arguments and returns the boxed results.
+// The call is split in two stages so that the arguments (nondet values) are
+// drawn first and the returned closure performs nothing but the call.
 type vhAutoM struct {
 	name  string
 	mut   bool // listed in mutators.txt
-	callS func(r *Stack) []any
-	callC func(r *Condition) []any
-	callA func(r *Auxiliary) []any
-	callF func() []any
+	prepS func() func(r *Stack) []any
+	prepC func() func(r *Condition) []any
+	prepA func() func(r *Auxiliary) []any
+	prepF func() func() []any
 }
+
+func (m vhAutoM) callS(r *Stack) []any     { return m.prepS()(r) }
+func (m vhAutoM) callC(r *Condition) []any { return m.prepC()(r) }
+func (m vhAutoM) callA(r *Auxiliary) []any { return m.prepA()(r) }
+func (m vhAutoM) callF() []any             { return m.prepF()() }
 
 type vhUserOp struct{ s, c string }
 
@@ -85,7 +92,7 @@ func vhArgOp() Operator {
 }
 
 // vhAnyCount is the size of the catalogue of awkward values (C08 part b).
-const vhAnyCount = 24
+const vhAnyCount = 27
 
 // vhAnyValue returns entry k of the catalogue.
 func vhAnyValue(k int) any {
@@ -147,6 +154,12 @@ func vhAnyValue(k int) any {
 		return p
 	case 23:
 		return []any{"AND", "q"}
+	case 24:
+		return "stdout"
+	case 25:
+		return 1
+	case 26:
+		return LogLevel(4)
 	}
 	return nil
 }
@@ -160,7 +173,13 @@ func vhArgAny() any {
 	if vhAnyLimit > 0 {
 		n = vhAnyLimit
 	}
-	return vhAnyValue(nondetChoice(n))
+	// the last three entries (values meaningful to the logging setters) are
+	// always part of the selection
+	k := nondetChoice(n + 3)
+	if k >= n {
+		return vhAnyValue(vhAnyCount - 3 + (k - n))
+	}
+	return vhAnyValue(k)
 }
 
 // vhVarLen limits the lengths tried for variadic arguments (0, 1, 2).
